@@ -78,6 +78,38 @@ func c02Run(c *fw.Ctx, i int) {
 	specs := gen.Decodable(gen.RandomForest(r, fo))
 	if i < n {
 		c02Constructive(c, specs)
+		// several different streams decoded by 8 goroutines at once (buffers,
+		// pools and tables shared between decoders): every tree must be what a
+		// lone caller gets
+		if i%20 == 0 {
+			var streams [][]byte
+			var opts []c02Opt
+			for q := 0; q < 12; q++ {
+				o := c02Opts[q%len(c02Opts)]
+				data, _, _ := gen.RenderStream(r.Fork(), gen.Decodable(gen.RandomForest(r, fo)), gen.StreamOpts{MultiLine: o.ml, InvalidIndents: o.ii})
+				streams, opts = append(streams, data), append(opts, o)
+			}
+			dec := func(q int) string {
+				d := gedcom.NewDecoder(bytes.NewReader(streams[q]))
+				d.AllowMultiLine, d.AllowInvalidIndents = opts[q].ml, opts[q].ii
+				var out string
+				if pi := fw.Try(func() {
+					doc, err := d.Decode()
+					if err != nil {
+						out = "error: " + err.Error()
+						return
+					}
+					out = fmt.Sprintf("bom=%v\n%s", doc.HasBOM, doc.String())
+				}); pi != nil {
+					out = "panic: " + pi.Msg
+				}
+				return out
+			}
+			c.Count("parallel-evaluations", int64(8*len(streams)))
+			if q, par, alone := fw.ParallelThenAlone(8, len(streams), dec, dec); q >= 0 {
+				c.Violation("parallel-evaluation-differs", fmt.Sprintf("a stream decoded while 7 other goroutines decode other streams:\n%s\nalone:\n%s", clip(par, 500), clip(alone, 500)), map[string]interface{}{"bytes": string(streams[q]), "options": opts[q].String()})
+			}
+		}
 		return
 	}
 	c02Mutated(c, specs)
